@@ -13,6 +13,7 @@ if has unfix; then
 for f in "$HERE"/selftest/patches/unfix/*.diff; do
   b=$(basename "$f" .diff)
   d="$OUT/unfix/$b"; mkdir -p "$d"; cp "$f" "$d/patch.diff"
+  [ -s "$OUT/unfix/$b.json" ] && [ -z "${REDO:-}" ] && continue   # top-up runs keep what is there
   python3 "$HERE/tools/eval_mutant.py" "$d" --checks all > "$OUT/unfix/$b.json" 2>&1
   echo "unfix/$b done"
 done
@@ -21,6 +22,7 @@ seeded() {
   for d in "$@"; do
     [ -d "$d" ] || continue
     b=$(basename "$d")
+    [ -s "$OUT/seeded/$b.json" ] && [ -z "${REDO:-}" ] && continue
     python3 "$HERE/tools/eval_mutant.py" "$d" --checks all > "$OUT/seeded/$b.json" 2>&1
     echo "seeded/$b done"
   done
@@ -35,6 +37,7 @@ if has neutral; then
 for d in "$HERE"/selftest/neutral/N*; do
   [ -d "$d" ] || continue
   b=$(basename "$d")
+  [ -s "$OUT/neutral/$b.json" ] && [ -z "${REDO:-}" ] && continue
   python3 "$HERE/tools/eval_mutant.py" "$d" --checks all > "$OUT/neutral/$b.json" 2>&1
   echo "neutral/$b done"
 done
